@@ -21,13 +21,14 @@ type world struct {
 	hasPred  bool
 	now      uint64 // current base time in ns
 	price    int64
-	alias    int // when non-zero: every stream s also exists as the different stream s+alias (same low bits)
+	verbose  bool // Config.VerboseLogging (must not change any result)
+	alias    int  // when non-zero: every stream s also exists as the different stream s+alias (same low bits)
 }
 
 var formatsPool = []uint32{1, 2, 4, 42}
 
 func (w *world) cfgJ() J {
-	return J{"f": w.f, "version": S(w.version), "minInterval": S(w.interval), "hasPred": w.hasPred}
+	return J{"f": w.f, "version": S(w.version), "minInterval": S(w.interval), "hasPred": w.hasPred, "verbose": w.verbose}
 }
 
 func newWorld(g *G) *world {
@@ -54,6 +55,7 @@ func newWorld(g *G) *world {
 	if g.R.Intn(8) == 0 {
 		w.alias = []int{1 << 8, 1 << 16, 1 << 24, 1 << 31}[g.R.Intn(4)]
 	}
+	w.verbose = g.R.Intn(4) == 0
 	return w
 }
 
@@ -427,7 +429,7 @@ func genOutcomeCases(g *G, n int, tag string) {
 			obs = obs[:g.R.Intn(len(obs))]
 			honest = nil
 		}
-		g.Emit(J{"op": "llo.outcome", "cfg": w.cfgJ(), "seqNr": seq, "prev": prev, "obs": obs, "attestations": w.attestations(), "honest": honest}, tag, "f="+S(w.f), "version="+S(w.version))
+		g.Emit(J{"op": "llo.outcome", "cfg": w.cfgJ(), "seqNr": seq, "prev": prev, "obs": obs, "attestations": w.attestations(), "honest": honest, "telemetry": g.R.Intn(3) == 0}, tag, "f="+S(w.f), "version="+S(w.version))
 	}
 }
 
@@ -456,7 +458,7 @@ func genHistoryCases(g *G, n int, maxRounds int, tag string) {
 			obs, honest := w.round(plan, []int{1, 2, 3, 4, 5})
 			rounds = append(rounds, J{"obs": obs, "honest": honest})
 		}
-		g.Emit(J{"op": "llo.history", "cfg": w.cfgJ(), "startSeqNr": 1, "rounds": rounds, "attestations": w.attestations()}, tag, "f="+S(w.f), "version="+S(w.version), "rounds="+S(nr))
+		g.Emit(J{"op": "llo.history", "cfg": w.cfgJ(), "startSeqNr": 1, "rounds": rounds, "attestations": w.attestations(), "telemetry": g.R.Intn(3) == 0}, tag, "f="+S(w.f), "version="+S(w.version), "rounds="+S(nr))
 	}
 }
 
